@@ -59,6 +59,9 @@ def enabled(w, groups=GROUPS, vcap=8, ncap=4, pair_cap=4):
             ops += [("init", g, "popitem"), ("init", g, "clear")]
             for k in ("a", "b", "zz"):
                 ops += [("init", g, "delitem", k), ("init", g, "pop", k)]
+            ops += [("init", g, "copy_then_edit_the_copy", "a"), ("init", g, "copy_then_edit_the_copy", "b")]
+            for v in vals[:3]:
+                ops += [("init", g, "ior", v)]
             for v in vals:
                 ops += [("init", g, "setitem", "<name>", v), ("init", g, "setitem", "a", v), ("init", g, "setitem", "", v),
                         ("init", g, "add", v), ("init", g, "register", v),
